@@ -456,7 +456,7 @@ func runC42(c *Ctx) {
 		loopOK := false
 		for _, ci := range c.callsNamed(f, "packets.decodeByte") {
 			if call, ok := ci.(*ssa.Call); ok {
-				if p, isPhi := call.Call.Args[1].(*ssa.Phi); isPhi && p.Comment == "offset" {
+				if p, isPhi := call.Call.Args[1].(*ssa.Phi); isPhi && canonName(p, p.Comment) == "offset" {
 					loopOK = true
 				}
 			}
